@@ -47,7 +47,8 @@ from pathlib import Path
 SRC = "exetera/core/operations.py"
 
 # kernel -> positional parameter types (the Python source is untyped; numba infers these from the call sites).
-#   int | bool | arr (integer array / typed list) | barr (boolean array) | opt_arr (array or None)
+#   int | bool | arr (integer array / typed list) | barr (boolean array) | opt_arr (array or None) |
+#   arr2 (2-D integer array: the list of its rows; `a[k]` is row k, `for row in a`, `len(a)` the number of rows)
 WHITELIST = [
     ("apply_spans_count", ["arr", "opt_arr"]),
     ("apply_spans_first", ["arr", "arr", "opt_arr"]),
@@ -69,11 +70,29 @@ WHITELIST = [
     ("generate_ordered_map_to_left_remaining", ["int", "arr", "arr", "int", "int", "int", "int"]),
     ("generate_ordered_map_to_left_right_unique_remaining", ["int", "arr", "int", "int", "int"]),
     ("generate_ordered_map_to_left_partial", ["arr", "int", "arr", "int", "arr", "arr"] + ["int"] * 10 + ["bool"]),
+    ("generate_ordered_map_to_left_left_unique_partial", ["arr", "arr", "int", "arr", "arr"] + ["int"] * 6),
+    ("generate_ordered_map_to_left_right_unique_partial", ["arr", "int", "arr", "arr"] + ["int"] * 5),
+    ("generate_ordered_map_to_inner_partial", ["arr", "int", "arr", "int", "arr", "arr"] + ["int"] * 9 + ["bool"]),
+    ("generate_ordered_map_to_inner_left_unique_partial", ["arr", "int", "arr", "int", "arr", "arr"] + ["int"] * 5),
+    ("generate_ordered_map_to_inner_right_unique_partial", ["arr", "int", "arr", "int", "arr", "arr"] + ["int"] * 5),
+    ("generate_ordered_map_to_inner_both_unique_partial", ["arr", "int", "arr", "int", "arr", "arr"] + ["int"] * 5),
+    ("apply_spans_index_of_first_filter", ["arr", "arr", "barr"]),
+    ("apply_spans_index_of_last_filter", ["arr", "arr", "barr"]),
+    ("apply_spans_index_of_min_filter", ["arr", "arr", "arr", "barr"]),
+    ("apply_spans_index_of_max_filter", ["arr", "arr", "arr", "barr"]),
+    ("_get_spans_for_2_fields_njit", ["arr", "arr", "arr"]),
+    ("_get_spans_for_multi_fields_njit", ["arr2", "arr"]),
+    ("_get_spans_for_index_string_field", ["arr", "arr"]),
+    ("compare_rows_for_journalling", ["arr", "arr", "arr", "arr", "barr"]),
+    ("generate_ordered_map_to_left_both_unique", ["arr", "arr", "arr", "int"]),
+    ("generate_ordered_map_to_left_right_unique", ["arr", "arr", "arr", "int"]),
+    ("ordered_inner_map_both_unique", ["arr", "arr", "arr", "arr"]),
 ]
 
-LEAN_T = {"int": "Int", "bool": "Bool", "arr": "List Int", "barr": "List Bool", "opt_arr": "Option (List Int)"}
-DEFAULT = {"int": "0", "bool": "false", "arr": "[]", "barr": "[]"}
-ELEM = {"arr": "int", "barr": "bool"}
+LEAN_T = {"int": "Int", "bool": "Bool", "arr": "List Int", "barr": "List Bool", "opt_arr": "Option (List Int)",
+          "arr2": "List (List Int)"}
+DEFAULT = {"int": "0", "bool": "false", "arr": "[]", "barr": "[]", "arr2": "[]"}
+ELEM = {"arr": "int", "barr": "bool", "arr2": "arr"}        # arr2: a 2-D integer array, passed as the list of its rows
 
 
 class Unsupported(Exception):
@@ -118,6 +137,61 @@ def is_none(n):
     return isinstance(n, ast.Constant) and n.value is None
 
 
+def drop_message_strings(body):
+    """`msg = "text"` whose only uses are the arguments of `raise …(msg)` carries no behaviour: drop the assignment"""
+    strs = set()
+    for b in body:
+        for n in ordered_nodes(b):
+            if isinstance(n, ast.Assign) and len(n.targets) == 1 and isinstance(n.targets[0], ast.Name) and \
+                    isinstance(n.value, ast.Constant) and isinstance(n.value.value, str):
+                strs.add(n.targets[0].id)
+    in_raise = set()
+    for b in body:
+        for n in ordered_nodes(b):
+            if isinstance(n, ast.Raise):
+                in_raise |= {id(m) for m in ordered_nodes(n)}
+    for b in body:
+        for n in ordered_nodes(b):
+            if isinstance(n, ast.Name) and n.id in strs and id(n) not in in_raise and isinstance(n.ctx, ast.Load):
+                strs.discard(n.id)
+            if isinstance(n, ast.Assign) and any(isinstance(t, ast.Name) and t.id in strs for t in n.targets) and \
+                    not (isinstance(n.value, ast.Constant) and isinstance(n.value.value, str)):
+                strs.discard(n.targets[0].id)
+
+    def strip(stmts):
+        out = []
+        for st in stmts:
+            if isinstance(st, ast.Assign) and len(st.targets) == 1 and isinstance(st.targets[0], ast.Name) and \
+                    st.targets[0].id in strs:
+                continue
+            for f in ("body", "orelse"):
+                if hasattr(st, f) and isinstance(getattr(st, f), list):
+                    setattr(st, f, strip(getattr(st, f)) or ([ast.Pass()] if f == "body" else []))
+            out.append(st)
+        return out
+    return strip(body)
+
+
+def rewrite_continue(stmts, in_loop=False):
+    """`if c: A; continue` directly in a loop body, followed by `rest`  ≡  `if c: A else: rest` (the only form of `continue`
+    that is accepted; any other `continue` is rejected later by `number_loops`)"""
+    out = []
+    for k, st in enumerate(stmts):
+        if isinstance(st, (ast.For, ast.While)):
+            st.body = rewrite_continue(st.body, True)
+        elif isinstance(st, ast.If):
+            if in_loop and not st.orelse and st.body and isinstance(st.body[-1], ast.Continue) and \
+                    not any(isinstance(n, (ast.Continue, ast.Break)) for b in st.body[:-1] for n in ordered_nodes(b)):
+                st.body = rewrite_continue(st.body[:-1], False) or [ast.Pass()]
+                st.orelse = rewrite_continue(stmts[k + 1:], in_loop)
+                out.append(st)
+                return out
+            st.body = rewrite_continue(st.body, False)
+            st.orelse = rewrite_continue(st.orelse, False)
+        out.append(st)
+    return out
+
+
 class Kernel:
     def __init__(self, fn, ptypes):
         self.fn = fn
@@ -132,7 +206,7 @@ class Kernel:
             if not (isinstance(d, ast.Constant) or (isinstance(d, ast.UnaryOp) and isinstance(d.operand, ast.Constant))):
                 raise Unsupported("non-constant default value")
         self.ptypes = list(ptypes)
-        self.body = strip_doc(fn.body)
+        self.body = rewrite_continue(drop_message_strings(strip_doc(fn.body)))
         self.rename()
         self.env = {f"p{k}": ("arr" if t == "opt_arr" else t) for k, t in enumerate(ptypes)}
         self.opt = {f"p{k}" for k, t in enumerate(ptypes) if t == "opt_arr"}    # optional parameters (static)
@@ -188,12 +262,12 @@ class Kernel:
         rebound -= self.opt_params_static()
         if stored & rebound:
             raise Unsupported("store into a parameter that is also re-assigned")
-        ret = self.body[-1].value if self.body and isinstance(self.body[-1], ast.Return) else None
-        returned = set()
-        if ret is not None:
-            for e in (ret.elts if isinstance(ret, ast.Tuple) else [ret]):
-                if isinstance(e, ast.Name):
-                    returned.add(e.id)
+        rets = [n.value for b in self.body for n in ordered_nodes(b) if isinstance(n, ast.Return) and n.value is not None]
+        returned = None                     # parameters returned by name in EVERY return statement
+        for ret in rets:
+            names = {e.id for e in (ret.elts if isinstance(ret, ast.Tuple) else [ret]) if isinstance(e, ast.Name)}
+            returned = names if returned is None else returned & names
+        returned = returned or set()
         self.mutated = sorted((p for p in stored if p not in returned), key=lambda x: int(x[1:]))
 
     def opt_params_static(self):
@@ -401,11 +475,22 @@ class Kernel:
             isb = dt is not None and ast.unparse(dt) in ("bool", "np.bool_", "numpy.bool_", "np.bool")
             tmp = self.fresh()
             return ("barr" if isb else "arr"), tmp, b + [(tmp, f"{'npZerosB' if isb else 'npZeros'} {x}")]
+        if f in ("np.full", "numpy.full") and len(n.args) == 2:
+            (tn, xn, bn), (tv, xv, bv) = self.expr(n.args[0], defined), self.expr(n.args[1], defined)
+            if tn != "int" or tv != "int" or any(kw.arg != "dtype" for kw in n.keywords):
+                raise Unsupported("np.full")
+            tmp = self.fresh()
+            return "arr", tmp, bn + bv + [(tmp, f"npFull {xn} {xv}")]
         if f in ("np.zeros_like", "numpy.zeros_like") and len(n.args) == 1:
             t, x, b = self.expr(n.args[0], defined)
             if t != "arr" or any(kw.arg != "dtype" for kw in n.keywords):
                 raise Unsupported("np.zeros_like")
             return "arr", f"(List.replicate {x}.length 0)", b
+        if f in ("np.array_equal", "numpy.array_equal") and len(n.args) == 2 and not n.keywords:
+            (ta, xa, ba), (tb, xb, bb) = self.expr(n.args[0], defined), self.expr(n.args[1], defined)
+            if ta != tb or ta not in ("arr", "barr"):
+                raise Unsupported(f"np.array_equal of a {ta} and a {tb}")
+            return "bool", f"({xa} == {xb})", ba + bb
         if isinstance(n.func, ast.Attribute) and n.func.attr in ("argmin", "argmax") and not n.args and not n.keywords:
             t, x, b = self.expr(n.func.value, defined)
             if t != "arr":
@@ -552,6 +637,27 @@ class Kernel:
                 raise Unsupported("statements after break")
             k = self.loops[id(loop)][0]
             return f"let s := {{ s with brk{k} := true }}\n.ok s", defined
+        if isinstance(st, ast.If) and loop is None and final is not None and self.opt_idiom(st) is None and \
+                any(isinstance(n, ast.Return) for n in ordered_nodes(st)):
+            # `if c: …; return E` at function level: each branch is continued separately (a branch that ends in `return`
+            # yields the result, the other one runs the rest of the function); at most one branch may fall through
+            t, x, b = self.expr(st.test, defined)
+            if t != "bool":
+                raise Unsupported("if on a non-boolean (truthiness of numbers / arrays is not supported)")
+            branches = [st.body, st.orelse]
+            if sum(1 for br in branches if not (br and isinstance(br[-1], ast.Return))) > 1:
+                raise Unsupported("return nested below a branch that falls through")
+            terms = []
+            for br in branches:
+                if br and isinstance(br[-1], ast.Return):
+                    ret = br[-1]
+                    if ret.value is None:
+                        raise Unsupported("return without a value")
+                    tm, _ = self.block(br[:-1], defined, None, False, lambda d, ret=ret: self.ret_final(ret, d))
+                else:
+                    tm, _ = self.block(br + rest, defined, None, top, final)
+                terms.append(tm)
+            return self.wrap(b, f"if {x} then\n{ind(terms[0], 2)}\nelse\n{ind(terms[1], 2)}"), defined
         if isinstance(st, (ast.If, ast.For, ast.While)) and self.opt_idiom(st) is None:
             term, d1 = self.compound(st, defined, loop)
             if not rest and final is None:
@@ -591,7 +697,8 @@ class Kernel:
             v = st.target.id
             it = st.iter
             binds = []
-            if isinstance(it, ast.Call) and ast.unparse(it.func) == "range" and 1 <= len(it.args) <= 2 and not it.keywords:
+            if isinstance(it, ast.Call) and ast.unparse(it.func) in ("range", "np.arange", "numpy.arange") and \
+                    1 <= len(it.args) <= 2 and not it.keywords:
                 parts = [self.expr(a, defined) for a in it.args]
                 if any(p[0] != "int" for p in parts):
                     raise Unsupported("range over non-integers")
@@ -647,21 +754,20 @@ class Kernel:
         self.read_unbound = set()
         self.maybe_none = set(self.opt)
         body = list(self.body)
-        if not body or not isinstance(body[-1], ast.Return) or body[-1].value is None:
-            raise Unsupported("the function does not end with `return <value>`")
-        ret = body.pop()
+        if body and isinstance(body[-1], ast.Return):
+            if body[-1].value is None:
+                raise Unsupported("return without a value")
+            ret = body.pop()
+        else:
+            # the function falls off its end (returns None): its result is what it stored into its array parameters
+            if any(isinstance(n, ast.Return) for b in body for n in ordered_nodes(b)):
+                raise Unsupported("a function that returns a value on some paths only")
+            if not self.mutated:
+                raise Unsupported("the function returns nothing and stores into none of its parameters")
+            ret = ast.Return(value=ast.Tuple(elts=[], ctx=ast.Load()))
         defined = {f"p{k}" for k in range(len(self.ptypes))}
-        def final(d):
-            if isinstance(ret.value, ast.Tuple):
-                parts = [self.expr(e, d) for e in ret.value.elts]
-            else:
-                parts = [self.expr(ret.value, d)]
-            parts += [self.var(p, d) for p in self.mutated]      # final contents of the arrays the kernel wrote into
-            binds = [b for p in parts for b in p[2]]
-            self.ret_types = [p[0] for p in parts]
-            rterm = parts[0][1] if len(parts) == 1 else "(" + ", ".join(p[1] for p in parts) + ")"
-            return self.wrap(binds, f".ok {rterm}")
-        main, d = self.block(body, defined, None, top=True, final=final)
+        self.ret_types = None
+        main, d = self.block(body, defined, None, top=True, final=lambda d: self.ret_final(ret, d))
         rtype = LEAN_T[self.ret_types[0]] if len(self.ret_types) == 1 else \
             "(" + " × ".join(LEAN_T[t] for t in self.ret_types) + ")"
         missing = [v for v in self.locals if v not in self.env]
@@ -699,6 +805,21 @@ class Kernel:
         self.has_fuel = fuel
         return "\n".join(L)
 
+    def ret_final(self, ret, d):
+        """`return E` (E a tuple: a product); the final contents of the arrays the kernel wrote into are appended"""
+        if isinstance(ret.value, ast.Tuple):
+            parts = [self.expr(e, d) for e in ret.value.elts]       # (empty for a function without `return`)
+        else:
+            parts = [self.expr(ret.value, d)]
+        parts += [self.var(p, d) for p in self.mutated]
+        binds = [b for p in parts for b in p[2]]
+        types = [p[0] for p in parts]
+        if self.ret_types is not None and self.ret_types != types:
+            raise Unsupported("return statements of different types")
+        self.ret_types = types
+        rterm = parts[0][1] if len(parts) == 1 else "(" + ", ".join(p[1] for p in parts) + ")"
+        return self.wrap(binds, f".ok {rterm}")
+
     def translate(self):
         # pass 1..n: type inference (a local is typed by the first assignment whose right-hand side is typed)
         self.flagged = set(self.locals)
@@ -718,8 +839,9 @@ class Kernel:
 
     def dispatch_arm(self):
         n = len(self.ptypes)
-        conv = {"int": "asInt?", "bool": "asBool?", "arr": "asArr?", "barr": "asBArr?", "opt_arr": "asOptArr?"}
-        mk = {"int": "Val.int", "bool": "Val.bool", "arr": "Val.arr", "barr": "Val.barr"}
+        conv = {"int": "asInt?", "bool": "asBool?", "arr": "asArr?", "barr": "asBArr?", "opt_arr": "asOptArr?",
+                "arr2": "asArr2?"}
+        mk = {"int": "Val.int", "bool": "Val.bool", "arr": "Val.arr", "barr": "Val.barr", "arr2": "Val.arr2"}
         pats = ", ".join(f"a{k}" for k in range(n))
         scrut = ", ".join(f"a{k}.{conv[t]}" for k, t in enumerate(self.ptypes))
         somes = ", ".join(f"some x{k}" for k in range(n))
